@@ -1,0 +1,40 @@
+//go:build verif
+
+package grammar
+
+// Machine-checked contracts for the govc verification-condition generator
+// (see /verif/DESIGN.md).  Comments only; compiled only with the build tag "verif".
+
+// ---------- assumed contracts of the generated parser packages (read-only accessors) ----------
+
+//@ extern bsr.BSR.LeftExtent(b) (r)
+//@   pure
+//@   ensures r == b.leftExtent
+
+//@ extern bsr.BSR.RightExtent(b) (r)
+//@   pure
+//@   ensures r == b.rightExtent
+
+//@ extern lexer.Lexer.GetString(l, lext, rext) (r)
+//@   pure
+//@   uses sem
+//@   ensures r == lextext(l, lext, rext)
+
+// ---------- grammar/grammar.go ----------
+
+//@ func Grammar.Next(g, bsr) (r)
+//@   property C08 C13 C15
+//@   requires g != nil
+//@   ensures fresh(r) && r != nil && r.BSR == bsr && r.lex == g.lex
+
+//@ func Grammar.GetString(g) (r)
+//@   property C08 C13 C15
+//@   uses sem
+//@   requires g != nil && g.BSR != nil
+//@   ensures r == btext(deref(g.BSR), g.lex)
+
+//@ func Grammar.GetStringExtents(g, left, right) (r)
+//@   property C08 C13 C15
+//@   uses sem
+//@   requires g != nil
+//@   ensures r == lextext(g.lex, left, right - 1)
